@@ -67,7 +67,7 @@ def layout(case, out):
             one = pa.concat_tables(out)
             idx = list(range(one.num_rows))
             rng.shuffle(idx)
-            one = one.take(idx)
+            one = one.take(pa.array(idx, pa.int64()))  # an explicit index type: an empty list would be typed null
         else:
             import pandas as pd
 
